@@ -6,7 +6,7 @@ import ast
 import numpy as np
 import sympy as sp
 
-from .kpe import (OutsideFragment, Opaque, S, as_int, is_static_int, obj_array, to_obj_array, vmap, FuncRef, UFunc)
+from .kpe import (OutsideFragment, Opaque, S, as_int, is_static_int, obj_array, to_obj_array, vmap, FuncRef, UFunc, is_num)
 
 
 def _shape(v):
@@ -64,6 +64,11 @@ def call(ip, name, args, kw):
         return to_obj_array([a])
     if name in _INTCASTS:
         a = args[0]
+        log = getattr(ip, "cast_log", None)
+        if log is not None:
+            env, st = getattr(ip, "cur_stmt", (None, None))
+            v = as_int(a) if is_static_int(a) else (int(S(a)) if getattr(S(a), "is_number", False) and S(a).is_integer else None)
+            log.append((name, v, env.mod.name if env is not None and env.mod else "?", getattr(st, "lineno", 0), st))
         if is_static_int(a):
             return as_int(a)
         sa = S(a)
@@ -314,7 +319,20 @@ def call(ip, name, args, kw):
         return tuple(np.nonzero(np.array(flags, dtype=bool).reshape(a.shape)))
     if name == "argsort":
         a = args[0]
-        vals = [as_int(x) for x in (a.ravel() if isinstance(a, np.ndarray) else a)]
+        raw = list(a.ravel() if isinstance(a, np.ndarray) else a)
+        if all(is_static_int(x) for x in raw):
+            vals = [as_int(x) for x in raw]
+        else:
+            # order-abstract evaluation: the ordering is read off the decider's representative point (valid on its region)
+            rep = getattr(getattr(ip, "decide", None), "assignment", None)
+            vals = []
+            for x in raw:
+                v = S(x).subs(rep) if rep else S(x)
+                if not (v.is_number and v.is_real):
+                    raise OutsideFragment(f"np.argsort of a symbolic value without a representative: {x}")
+                vals.append(sp.Rational(v) if v.is_Rational else float(v))
+            order = sorted(range(len(vals)), key=lambda i: vals[i])   # sorted() is stable
+            return np.array(order, dtype=int)
         return np.argsort(np.array(vals), kind="stable")
     if name == "ndim":
         return to_obj_array(args[0]).ndim if isinstance(args[0], (np.ndarray, list, tuple)) else 0
@@ -344,6 +362,14 @@ def call(ip, name, args, kw):
         return to_obj_array([a[i + 1] - a[i] for i in range(len(a) - 1)])
     if name == "flip":
         return to_obj_array(args[0])[::-1]
+    if name == "roll":
+        a = to_obj_array(args[0])
+        sh = args[1] if len(args) > 1 else kw.get("shift")
+        if a.ndim != 1 or kw.get("axis") not in (None, 0) or not is_num(sh):
+            raise OutsideFragment("np.roll (only 1-D arrays with a literal shift)")
+        n = len(a)
+        k = int(S(sh)) % n if n else 0
+        return to_obj_array(list(a[n - k:]) + list(a[:n - k]))
     if name == "tile" or name == "repeat":
         raise OutsideFragment(f"np.{name}")
     raise OutsideFragment(f"np.{name}")
